@@ -11,7 +11,7 @@ SEEDS="$*"; [ -z "$SEEDS" ] && SEEDS=$(ls $V/seeded)
 one() {
   id=$1; P=${id%%-*}; D=$S/$id
   rm -rf $D; mkdir -p $D
-  git -C /repo worktree add -f --detach $D/repo HEAD >/dev/null 2>&1 || { echo "$id BROKEN worktree"; return; }
+  flock /tmp/sm/.wtlock git -C /repo worktree add -f --detach $D/repo HEAD >/dev/null 2>&1 || { echo "$id BROKEN worktree"; return; }
   if ! git -C $D/repo apply $V/seeded/$id/patch.diff 2>$D/apply.err; then echo "$id BROKEN patch-does-not-apply"; else
     props="$P"; [ -f $V/seeded/$id/also.txt ] && props="$P $(cat $V/seeded/$id/also.txt)"
     res=""
@@ -22,7 +22,7 @@ one() {
     done
     case "$res" in *exit=1*) echo "$id DETECTED$res";; *exit=2*) echo "$id BROKEN$res";; *) echo "$id MISSED$res";; esac
   fi
-  git -C /repo worktree remove --force $D/repo >/dev/null 2>&1; rm -rf $D/build $D/repo
+  flock /tmp/sm/.wtlock git -C /repo worktree remove --force $D/repo >/dev/null 2>&1; rm -rf $D/build $D/repo
 }
 export -f one; export V S TIER
 printf '%s\n' $SEEDS | xargs -P $J -I{} bash -c 'one {}' | tee $S/summary.txt
